@@ -168,6 +168,7 @@ func (c *clipperBase) checkSplitOwner(outrec *OutRec, splits []int) bool {
 		}
 
 		outrec.owner = split
+		vEvent("treeOwnerAccepted", nil, outrec.path...)
 		return true
 	}
 	return false
